@@ -37,6 +37,7 @@ type DocOptions struct {
 	Kinds        []string
 	MaxPrimary   int
 	MaxIncluded  int
+	MinIncluded  int
 	DistinctIncl bool // included resources have pairwise distinct IDs (C11's domain)
 	InclPairs    bool // included resources have pairwise distinct (type, ID) pairs; IDs repeat across types on purpose
 	Errors       bool // may carry error objects
@@ -44,7 +45,8 @@ type DocOptions struct {
 	AllFields    bool // select every field and request every relationship's data (C01)
 }
 
-var prefixes = []string{"", "/", "/api", "/api/", "https://example.org", "https://example.org/v1/"}
+// (some prefixes run into type names: "/a" + "bc" against "/ab" + "c")
+var prefixes = []string{"", "/", "/api", "/api/", "https://example.org", "https://example.org/v1/", "/a", "/ab", "/a/b", "/b", "/a/"}
 
 func drawID(t *core.Tape, exotic bool, taken map[string]bool) string {
 	for tries := 0; tries < 20; tries++ {
@@ -211,7 +213,7 @@ func DrawDoc(t *core.Tape, s *SchemaSpec, o DocOptions) *DocSpec {
 		}
 	}
 
-	ni := t.Range(0, o.MaxIncluded)
+	ni := t.Range(o.MinIncluded, o.MaxIncluded)
 	if !o.DistinctIncl {
 		taken = map[string]bool{}
 	}
@@ -380,7 +382,18 @@ func (d *DocSpec) RawURL(fieldOrder func(names []string) []string) string {
 // MatOptions permutes the order-irrelevant parts when materialising.
 type MatOptions struct {
 	Rng *core.Rng // nil: as specified
+	// CopyOnRead wraps the resources that need not be of a library type (a single
+	// primary resource, the members of a Resources collection, included resources)
+	// in a caller-side Resource implementation whose Get returns fresh copies of
+	// slices: a defensive implementation a library user may well write.
+	CopyOnRead bool
 }
+
+// CopyOnRead is that implementation.
+type CopyOnRead struct{ jsonapi.Resource }
+
+// Get returns a copy of whatever slice the wrapped resource holds.
+func (c CopyOnRead) Get(key string) interface{} { return CloneValue(c.Resource.Get(key)) }
 
 func permStrings(r *core.Rng, s []string) []string {
 	if r == nil || len(s) < 2 {
@@ -452,12 +465,19 @@ func (d *DocSpec) Materialise(schema *jsonapi.Schema, o MatOptions) (*jsonapi.Do
 	}
 
 	mk := func(rs *ResSpec) jsonapi.Resource { return rs.permuted(o.Rng).Materialise(schema) }
+	wrap := func(r jsonapi.Resource) jsonapi.Resource {
+		if o.CopyOnRead {
+			return CopyOnRead{r}
+		}
+
+		return r
+	}
 
 	switch d.Kind {
 	case "nil":
 		doc.Data = nil
 	case "resource":
-		doc.Data = mk(d.Primary[0])
+		doc.Data = wrap(mk(d.Primary[0]))
 	case "softcollection":
 		col := &jsonapi.SoftCollection{}
 		typ := schema.GetType(d.ColType.Name)
@@ -472,7 +492,7 @@ func (d *DocSpec) Materialise(schema *jsonapi.Schema, o MatOptions) (*jsonapi.Do
 	case "resources":
 		col := &jsonapi.Resources{}
 		for _, rs := range d.Primary {
-			col.Add(mk(rs))
+			col.Add(wrap(mk(rs)))
 		}
 
 		doc.Data = col
@@ -501,6 +521,10 @@ func (d *DocSpec) Materialise(schema *jsonapi.Schema, o MatOptions) (*jsonapi.Do
 			}
 		}
 
+		if cor, ok := first.(CopyOnRead); ok {
+			first = cor.Resource
+		}
+
 		if mh, ok := first.(jsonapi.MetaHolder); ok {
 			m := jsonapi.Meta{}
 			for _, k := range sortedKeys(d.ResMeta) {
@@ -521,7 +545,7 @@ func (d *DocSpec) Materialise(schema *jsonapi.Schema, o MatOptions) (*jsonapi.Do
 	}
 
 	for _, i := range order {
-		doc.Included = append(doc.Included, mk(d.Included[i]))
+		doc.Included = append(doc.Included, wrap(mk(d.Included[i])))
 	}
 
 	return doc, u, nil
